@@ -21,7 +21,8 @@ CLAIMED = {
         "std.objectFieldsAll(std)) applied to every tuple of boundary values, and simulated mutation sequences of the "
         "repository's own programs. Every input runs in an isolated worker (panic = data, abort/timeout attributed to the "
         "case); TLC validates the recorded outcomes against Trace_Pipeline; a sample goes through the real binary (exit "
-        "status in {0,1,2}, no signal, no `panicked at`).",
+        "status in {0,1,2}, no signal, no `panicked at`)."
+        " Further universes: ill-formed UTF-8 inside string bodies, std.format directive grid, deep nesting shapes, the static-analysis universe of MC_Static (ill-scoped programs must be diagnosed); every other std result is also ordered, sorted and printed.",
         "DESIGN.md §5 C01",
         "Totality only (the spec does not predict which outcome); time-outs and allocator failure under the worker's "
         "memory limit are resource exhaustion, counted outside the domain; deep-nesting native stack overflow in the "
@@ -47,7 +48,8 @@ CLAIMED = {
         "behaviours over 5 objects are stepped through it with the comparison after every operation. "
         "Evaluator level: corpus programs run under never/default/every-step/periodic/"
         "explicit collection schedules (hook in maybe_gc); outcomes must be identical, no handle may die, "
-        "object count must return to the baseline after one collection.",
+        "object count must return to the baseline after one collection."
+        " Every other run also collects while only the request's value is held (before it is manifested); deep live heaps are also run through the binary.",
         "DESIGN.md §5 C03",
         "Trusts the scripted heap driver in rsjsonnet-lang/src/verif.rs (cfg rsjsonnet_verif) to hold exactly "
         "the handles the script names; evaluator-level exactness is observed through object counts only; "
@@ -73,7 +75,8 @@ CLAIMED = {
         "code point 0x00-0xA0 (+ boundary code points) as strings and keys, nesting <= 2/3, hidden fields, dyadic numbers "
         "incl. -0, x 20 layouts, and emits the expected text: compared exactly with the implementation (library and CLI "
         "default/-y/-m). Python / TOML / YAML documents are decoded by the target language's own parser (ast.literal_eval, "
-        "tomllib, PyYAML) and compared with the value.",
+        "tomllib, PyYAML) and compared with the value."
+        " spec/Encode2.tla adds std.manifestIni / manifestXmlJsonml / manifestYamlStream and small text functions as upstream defines them (exact text + reading laws inside stated domains); std.parseYaml must read std.manifestYamlDoc's documents back.",
         "DESIGN.md §5 C05",
         "Doubles outside the exact dyadic domain are checked by self round trip (implementation's parseJson, Python float) "
         "and the RFC 8259 number grammar, not by TLC; PyYAML is YAML 1.1 (documented exclusions).",
@@ -120,7 +123,8 @@ CLAIMED = {
         "states the staircase contract between depth d, limit s and outcome for 23 recursion families; the recorded outcome "
         "matrix of the implementation (3 000 / 30 000 cells, plus depths 5 000-30 000 for native-stack safety) is validated "
         "by TLC against Trace_Depth; frame events of runs under small limits are validated against Trace_Machine (counter = "
-        "open frames, never negative, zero at exit, StackOverflow exactly at the first step boundary above the limit).",
+        "open frames, never negative, zero at exit, StackOverflow exactly at the first step boundary above the limit)."
+        " Families include tailstrict calls in non-tail positions (every level must keep a frame) and deep live heaps through the binary.",
         "DESIGN.md §5 C10",
         "Frames-per-level is implementation defined: the shape of the matrix is constrained, not the threshold.",
         "TLA+ state machine model-checked + trace validation of recorded frame events and outcome matrices"),
@@ -129,7 +133,8 @@ CLAIMED = {
         "as-coded variant RestoreOnFail=FALSE yields the 2-request counterexample that was fixed). spec/Hist.tla: TLC "
         "enumerates every history of length 3 (thorough: 4, sampled) over 29 requests on 13 sources sharing an external "
         "variable and an imported file; each history runs on one long-lived Program, each request also on a fresh one; "
-        "TLC validates every recorded outcome against Trace_Hist (= fresh outcome under the same limit).",
+        "TLC validates every recorded outcome against Trace_Hist (= fresh outcome under the same limit)."
+        " Histories also collect while only a request's value is held; Session-level histories (case kind sess) cover the front end's import resolution and caches.",
         "DESIGN.md §5 C11",
         "Fixed source pool; memoised results may turn a fresh StackOverflow into the value a larger limit gives.",
         "TLA+ request-layer model + TLC-enumerated histories replayed + trace validation of outcomes"),
@@ -169,7 +174,8 @@ CLAIMED = {
         "<= 4/5 over the operator alphabet, <= 5/7 over the number alphabet, token items and pairs/triples with every "
         "separator kind, string/text-block fragments, UTF-8 patterns in every container; replayed through "
         "Lexer::lex_to_eof(true/false). Tiling on arbitrary bytes (random, corpus, truncations, mutations) is validated "
-        "against spec/Trace_Lex.tla by TLC on a sample and by a Python evaluation of the same condition on all.",
+        "against spec/Trace_Lex.tla by TLC on a sample and by a Python evaluation of the same condition on all."
+        " LawStretchR (inserting filler inside a comment / whitespace run / string only shifts spans; checked by TLC for k = 1, 2) is applied with k around 2^25 and 2^26 to the real lexer.",
         "DESIGN.md §5 C14",
         "Error kind and span end of lexical errors are not compared (class and position only); exponents longer than 6 "
         "digits and `0` followed by a digit are outside the domain.",
@@ -183,7 +189,8 @@ CLAIMED = {
         "extends-right forms, postfix chains with the 12 slice layouts, object/comprehension shapes. Replay through "
         "Parser::parse_root_expr: same tree, same spans for both prints and with one parenthesis pair removed; "
         "single-token delete/duplicate/swap mutants must be rejected where the reference rejects, with an error that "
-        "points at a token (spec/Trace_Diag.tla validated by TLC on a sample).",
+        "points at a token (spec/Trace_Diag.tla validated by TLC on a sample)."
+        " Layouts with one huge separator give nodes of 2^25-1 .. 2^26 bytes (span id representation boundary).",
         "DESIGN.md §5 C15",
         "Accept/reject of mutated sequences is decided only over the operator-core vocabulary; nesting deeper than 3 is sampled.",
         "TLA+ grammar/precedence model with reference parser, TLC-checked print/parse laws + replay of trees and spans"),
@@ -206,7 +213,8 @@ CLAIMED = {
         "spec/SortSet.tla defines Sort (unique stable ordered permutation), Uniq, Set, set operations by key, "
         "MinArray/MaxArray declaratively; TLC checks permutation/ordered/stable/idempotence/upstream-definition laws and "
         "emits expected results for all arrays of length <= 6-8 over 3-4 keys with unique tags, all pairs of sets over 5 "
-        "keys, and simulated long arrays (25..200, crossing the merge threshold) under identity/projecting/negating keyF.",
+        "keys, and simulated long arrays (25..200, crossing the merge threshold) under identity/projecting/negating keyF."
+        " Equal keys occur in two spellings (0 / -0, law LawAltTab) and the empty array is a key.",
         "DESIGN.md §5 C17",
         "Long arrays are sampled; error kinds/messages are not compared.",
         "TLC-checked declarative sort/set contracts + exact replay"),
@@ -225,7 +233,8 @@ CLAIMED = {
         "interactions, aliases, form agreement, argument counting, parse/print identity, digit laws). Universe: conversions "
         "x 32 flag subsets x widths x precisions x 41 values, huge widths/precisions (65535..70000) as ropes, malformed "
         "strings, argument mismatches. The spec renderers are cross-validated against Python's % operator in the check "
-        "(mismatch = tool error).",
+        "(mismatch = tool error)."
+        " A negative fraction under d i u o x X (floor vs truncate undecided) must print as the decided result of its truncation or of its floor.",
         "DESIGN.md §5 C19",
         "Digits of e/f/g for non-dyadic values and magnitudes >= 2^53 are compared by shape/one-ulp only; sign of -0 and "
         "upstream-specific corners are outside the domain.",
